@@ -17,16 +17,28 @@ def h_pair(m, ctx, nlines, menu_name, fixed=None, le_choices=(b'\n', b'\r\n'), i
            mode='Build', history=False):
     source, desc = build_source(ctx, nlines, menu_name, fixed=fixed, le_choices=le_choices, final_newline=final_newline)
     se = SymEnv(ctx, inc_len=inc_len, out_len=out_len)
-    it1 = Interp(m, ctx)
-    env1 = se.install(it1, source)
-    r1 = run_preprocess(m, it1, mode, False, True)
-    out1, tmp1 = env1.read_file(OUT), env1.read_file(WORK + b'/t.tmp')
-    se.replaying = 0
-    it2 = Interp(m, ctx)
-    # history=True: the second run (option off) starts from the files the first run (option on) left behind
-    env2 = se.install(it2, source, pre_out=out1 if history else None, pre_temp=tmp1 if history else None)
-    r2 = run_preprocess(m, it2, mode, False, False)
-    out2, tmp2 = env2.read_file(OUT), env2.read_file(WORK + b'/t.tmp')
+    if history == 'off_on':
+        # round 6: the run with the option ON starts from the files a run with the option OFF left behind
+        it2 = Interp(m, ctx)
+        env2 = se.install(it2, source)
+        r2 = run_preprocess(m, it2, mode, False, False)
+        out2, tmp2 = env2.read_file(OUT), env2.read_file(WORK + b'/t.tmp')
+        se.replaying = 0
+        it1 = Interp(m, ctx)
+        env1 = se.install(it1, source, pre_out=out2, pre_temp=tmp2)
+        r1 = run_preprocess(m, it1, mode, False, True)
+        out1, tmp1 = env1.read_file(OUT), env1.read_file(WORK + b'/t.tmp')
+    else:
+        it1 = Interp(m, ctx)
+        env1 = se.install(it1, source)
+        r1 = run_preprocess(m, it1, mode, False, True)
+        out1, tmp1 = env1.read_file(OUT), env1.read_file(WORK + b'/t.tmp')
+        se.replaying = 0
+        it2 = Interp(m, ctx)
+        # history=True: the second run (option off) starts from the files the first run (option on) left behind
+        env2 = se.install(it2, source, pre_out=out1 if history else None, pre_temp=tmp1 if history else None)
+        r2 = run_preprocess(m, it2, mode, False, False)
+        out2, tmp2 = env2.read_file(OUT), env2.read_file(WORK + b'/t.tmp')
     data = {'op': 'pp2', 'mode': mode, 'history': history, 'lines': desc, 'source': syms_of(source), 'inc': syms_of(se.inc_content),
             'cmd_results': [(code, syms_of(o)) for _, code, o in se.cmd_results], 'source_shown': show_bytes(source)}
     ctx.notes['lines'] = desc
@@ -112,6 +124,9 @@ def jobs(tier):
             js.append({'name': 'history on->off %s 2 lines' % md, 'harness': (H, 'h_pair'),
                        'params': {'nlines': 2, 'menu_name': 'small', 'mode': md, 'history': True, 'le_choices': (b'\n',), 'inc_len': 2, 'out_len': 1},
                        'split': 8})
+        js.append({'name': 'history off->on InMemoryBuild 2 lines', 'harness': (H, 'h_pair'),
+                   'params': {'nlines': 2, 'menu_name': 'small', 'mode': 'InMemoryBuild', 'history': 'off_on', 'le_choices': (b'\n',), 'inc_len': 2,
+                              'out_len': 1}, 'split': 8})
         for f in ['write', 'run', 'include f', 'temp', 'tag A']:
             js.append({'name': '3 lines first=%s LF' % f, 'harness': (H, 'h_pair'),
                        'params': {'nlines': 3, 'menu_name': 'small', 'fixed': [f], 'le_choices': (b'\n',), 'inc_len': 2, 'out_len': 1}, 'split': 4})
@@ -126,6 +141,8 @@ def jobs(tier):
             for f in firsts:
                 js.append({'name': 'history on->off %s 3 lines first=%s' % (md, f), 'harness': (H, 'h_pair'),
                            'params': {'nlines': 3, 'menu_name': 'small', 'fixed': [f], 'mode': md, 'history': True, 'inc_len': 2, 'out_len': 1}, 'split': 4})
+                js.append({'name': 'history off->on %s 2 lines first=%s' % (md, f), 'harness': (H, 'h_pair'),
+                           'params': {'nlines': 2, 'menu_name': 'small', 'fixed': [f], 'mode': md, 'history': 'off_on', 'inc_len': 2, 'out_len': 1}})
     # the mode / options the binary hands to the library for every flag combination (real main() from the bin crate's MIR)
     for sub in (None, 'Verify'):
         js.append({'name': 'cli: options passed to the run for sub-command %s x all flags' % sub, 'harness': ('props.c17', 'h_cli'),
@@ -139,8 +156,8 @@ def jobs(tier):
     return js
 
 
-BOUNDS = {'quick': 'same sources/world as C01 quick (0-3 lines over the small menu, LF/CRLF, with/without final newline), two runs each',
-          'thorough': 'all 3-line sources over the small menu, 2-line sources over the full menu, two runs each'}
+BOUNDS = {'quick': 'same sources/world as C01 quick (0-3 lines over the small menu, LF/CRLF, with/without final newline), two runs each; histories on->off (Build, --needed) and off->on (--needed) over the files the first run left, 2-line sources',
+          'thorough': 'all 3-line sources over the small menu, 2-line sources over the full menu, two runs each; histories on->off (3 lines) and off->on (2 lines) in Build and --needed for every first line'}
 from . import project as _project
 BOUNDS = {k: v + _project.bounds_note('C13', k) for k, v in BOUNDS.items()}
 ASSUMPTIONS = ['D1-D12 of DESIGN.md 4.3', 'D8: commands are deterministic (the second run sees the same results)']
@@ -151,7 +168,9 @@ def replay(native, v):
     d = v['data']
     model = d['model']
     margs = ('-N',) if d.get('mode') == 'InMemoryBuild' else ()
-    if d.get('history'):
+    if d.get('history') == 'off_on':
+        b, a = ppreplay.run_native_history(d, model, [(margs, False), (margs, True)])
+    elif d.get('history'):
         a, b = ppreplay.run_native_history(d, model, [(margs, True), (margs, False)])
     else:
         a = ppreplay.run_native(d, model, mode_args=margs, trailing=True)
